@@ -38,6 +38,18 @@ import (
 type c20StopConn struct {
 	net.Conn
 	closed atomic.Bool
+	// slowEstablished: established() starts with conn.SetWriteDeadline(time.Time{}); holding that call
+	// back keeps the FSM goroutine between "the peer is shown as ESTABLISHED" and "established() selects
+	// on its channels" — the window in which an operator's request must not get lost (deterministic
+	// replay of the lost ShutdownPeer/ResetPeer, see known_findings.json "fixed: property=C20 … lost-operator-notification")
+	slowEstablished time.Duration
+}
+
+func (c *c20StopConn) SetWriteDeadline(t time.Time) error {
+	if t.IsZero() && c.slowEstablished > 0 {
+		time.Sleep(c.slowEstablished)
+	}
+	return c.Conn.SetWriteDeadline(t)
 }
 
 func (c *c20StopConn) RemoteAddr() net.Addr {
@@ -120,6 +132,9 @@ func (r *c20Run) stopCase(idx int, state, variant string) {
 		local, rem := net.Pipe()
 		remote = rem
 		conn = &c20StopConn{Conn: local}
+		if state == "established" || state == "established-gr" {
+			conn.slowEstablished = 300 * time.Millisecond
+		}
 		go func() {
 			_, _ = io.Copy(io.Discard, rem)
 			close(remoteClosed)
